@@ -74,6 +74,11 @@ def client_api():
               sigs=["book.name,other_shelf"])
     fb.method(s, "ClassifyBook", "MoveBookRequest", "Book", http=("post", "/v1/{book.name=shelves/*/books/*}:classify", "*"),
               sigs=["book.class,other_shelf"])
+    # a flattened SCALAR parameter named like the module that holds the request type (library.proto -> `library`):
+    # the types module has to be imported under an alias in that method, or the parameter shadows it
+    fb.message("ShelveBookRequest", [("name", "string"), ("library", "string")])
+    fb.method(s, "ShelveBook", "ShelveBookRequest", "Book", http=("post", "/v1/{name=shelves/*/books/*}:shelve", "*"),
+              sigs=["name,library"])
     fb.method(s, "StreamBooks", "StreamBooksRequest", "Book", http=("get", "/v1/{parent=shelves/*}/books:stream"),
               sigs=["parent"], sstream=True)
     fb.method(s, "Upload", "UploadRequest", "Book", cstream=True)
@@ -84,6 +89,10 @@ def client_api():
     # requests from a dependency package
     fb.method(s, "Ping", E, "Book", http=("get", "/v1/ping"))
     fb.method(s, "TouchBook", "GetBookRequest", "Empty", http=("post", "/v1/{name=shelves/*/books/*}:touch", "*"))
+    # no method_signature; a request can carry nothing but PRESENCE (optional scalar at its default, empty sub-message):
+    # proto-plus calls such a message falsy, it still is the caller's request
+    fb.message("ProbeRequest", [("depth", "int32", {"optional": True}), ("label", "string"), ("book", "msg:Book")])
+    fb.method(s, "Probe", "ProbeRequest", "Book", http=("post", "/v1/probe", "*"))
     fb.method(s, "CheckOperation", "google.longrunning.GetOperationRequest", "Book",
               http=("get", "/v1/{name=operations/*}:check"), sigs=["name"])
     fb.method(s, "Mask", "google.protobuf.FieldMask", "Book", http=("post", "/v1/mask", "*"), sigs=["paths"])
@@ -163,6 +172,9 @@ def rest_api():
     # a DELETE binding that declares a body (permitted by google.api.http)
     fb.message("PurgeRequest", [("parent", "string", {"required": True}), ("filter", "string"), ("force", "bool")])
     fb.method(s, "PurgeThings", "PurgeRequest", E, http=("delete", "/v1/{parent=shelves/*}/things", "*"))
+    # a request WITHOUT any required field: `$alt` (numeric enums) must not depend on there being one
+    fb.message("ListRequest", [("filter", "string"), ("kind", "enum:Kind"), ("page", "int32")])
+    fb.method(s, "ListThings", "ListRequest", "Book", http=("get", "/v1/things"))
     # server streaming over REST (the reply is a ResponseIterator of the item type)
     fb.method(s, "WatchThings", "DeleteRequest", "Book", http=("get", "/v1/{name=things/*}:watch"), sstream=True)
     return [fb]
@@ -231,6 +243,8 @@ def lro_api():
               lro=("IndexReport", "google.example.lr.v1.IndexMetadata"))
     fb.method(s, "CleanUp", "Req", OP, http=("post", "/v1/{name=books/*}:clean", "*"),
               lro=("google.protobuf.Empty", "WriteMetadata"))
+    # same response type as WriteBook, different metadata type: the pair belongs to the METHOD
+    fb.method(s, "ReindexBook", "Req", OP, http=("post", "/v1/{name=books/*}:reindex", "*"), lro=("Book", "IndexMetadata"))
     fb.method(s, "RawOp", "Req", OP, http=("post", "/v1/{name=books/*}:raw", "*"))
     fb.method(s, "GetBook", "Req", "Book", http=("get", "/v1/{name=books/*}"))
     return [idx, fb]
@@ -260,6 +274,10 @@ def samples_api():
     fb.message("RenameBookRequest", [("parent", "string", {"required": True}), ("book", "msg:Book")])
     fb.method(s, "RenameBook", "RenameBookRequest", "Book", http=("post", "/v1/{parent=shelves/*}/books:rename", "*"),
               sigs=["parent,book.name"])
+    # a oneof whose SECOND member is required: the sample populates one member of the oneof, not two
+    fb.message("DrawShapeRequest", [("parent", "string", {"required": True}), ("circle_label", "string", {"oneof": "kind"}),
+                                    ("square_label", "string", {"oneof": "kind", "required": True})])
+    fb.method(s, "DrawShape", "DrawShapeRequest", "Book", http=("post", "/v1/{parent=shelves/*}/shapes", "*"))
     # an RPC named by a Python keyword: the client method is `import_`, and the sample has to call that
     fb.method(s, "Import", "GetBookRequest", "Book", http=("post", "/v1/{name=shelves/*/books/*}:import", "*"))
     # a second service on a different host: region tags carry the owning service's host short name
